@@ -68,30 +68,63 @@ pub mod rt {
     use ::std::cell::{Cell, RefCell};
     use ::std::collections::HashMap;
     use ::std::rc::Rc;
-    struct Entry { size: usize, snapshot: ::std::boxed::Box<[u8]>, prim: Option<Rc<dyn Any>> }
-    ::std::thread_local! { static REG: RefCell<HashMap<usize, Entry>> = RefCell::new(HashMap::new()); static ACTIVE: Cell<bool> = Cell::new(false); }
+    struct Entry { size: usize, snapshot: ::std::boxed::Box<[u8]>, prim: Option<Rc<dyn Any>>, joined: ::std::vec::Vec<::std::string::String>,
+        /// how to drop what the object currently owns (address of the value, monomorphised drop) before its bytes are put back
+        dropper: Option<(usize, unsafe fn(usize))> }
+    ::std::thread_local! { static REG: RefCell<HashMap<usize, Entry>> = RefCell::new(HashMap::new()); static ACTIVE: Cell<bool> = Cell::new(false);
+        /// a loom mutex created by the model's first thread before anything is spawned: the creator of a lazily created
+        /// primitive holds it while creating, and every other thread passes through it once before its first use of that
+        /// primitive, so that the creation happens-before every use (as the initialisation of a static or the `new` of a
+        /// shared object does in the real program) - without it loom reports the first use from another thread as racing
+        /// with the creation
+        static GATE: RefCell<Option<Rc<loom::sync::Mutex<()>>>> = RefCell::new(None); }
     extern "C" { static __data_start: u8; static _end: u8; }
     fn is_static(addr: usize) -> bool { unsafe { addr >= &__data_start as *const u8 as usize && addr < &_end as *const u8 as usize } }
-    /// to be called at the start of every loom execution
+    /// to be called at the start of every loom execution, on the model's first thread
     pub fn new_execution() {
-        REG.with(|r| { let mut r = r.borrow_mut();
-            r.retain(|addr, _| is_static(*addr)); // anything else belonged to the previous execution (its memory may be gone)
-            for (addr, e) in r.iter_mut() { unsafe { ::std::ptr::copy_nonoverlapping(e.snapshot.as_ptr(), *addr as *mut u8, e.size) }; e.prim = None; } });
+        // 1. forget everything that is not a static (it belonged to the previous execution; its memory may be gone)
+        let droppers: ::std::vec::Vec<(usize, unsafe fn(usize))> = REG.with(|r| { let mut r = r.borrow_mut(); r.retain(|addr, _| is_static(*addr)); for e in r.values_mut() { e.prim = None; e.joined.clear(); } r.values().filter_map(|e| e.dropper).collect() });
+        // 2. drop what the statics own now (no registry borrow is held: a value may own further registered objects) ...
+        for (addr, f) in droppers { unsafe { f(addr) } }
+        // 3. ... and put their initial bytes back (const-evaluated initial values own nothing)
+        REG.with(|r| for (addr, e) in r.borrow_mut().iter_mut() { unsafe { ::std::ptr::copy_nonoverlapping(e.snapshot.as_ptr(), *addr as *mut u8, e.size) }; });
+        GATE.with(|g| *g.borrow_mut() = Some(Rc::new(loom::sync::Mutex::new(()))));
         ACTIVE.with(|a| a.set(true));
     }
     /// to be called when an execution is over (loom objects must not be touched outside one)
-    pub fn end_execution() { ACTIVE.with(|a| a.set(false)); REG.with(|r| for e in r.borrow_mut().values_mut() { e.prim = None; }); }
+    pub fn end_execution() { ACTIVE.with(|a| a.set(false)); REG.with(|r| for e in r.borrow_mut().values_mut() { e.prim = None; e.joined.clear(); }); GATE.with(|g| *g.borrow_mut() = None); }
     pub fn active() -> bool { ACTIVE.with(|a| a.get()) }
+    fn me() -> ::std::string::String { ::std::format!("{:?}", loom::thread::current().id()) }
     /// the loom primitive of the object at `addr` (created on first use in this execution); None outside an execution
-    pub fn prim<P: 'static>(addr: usize, size: usize, make: impl FnOnce() -> P) -> Option<Rc<P>> {
+    pub fn prim<P: 'static>(addr: usize, size: usize, make: impl FnOnce() -> P) -> Option<Rc<P>> { prim_owning(addr, size, None, make) }
+    /// # Safety of the dropper: it is called with the given address while no thread runs, before the object's bytes are reset
+    pub unsafe fn drop_at<T>(addr: usize) { ::std::ptr::drop_in_place(addr as *mut T) }
+    pub fn prim_owning<P: 'static>(addr: usize, size: usize, dropper: Option<(usize, unsafe fn(usize))>, make: impl FnOnce() -> P) -> Option<Rc<P>> {
         if !active() { return None; }
-        let existing = REG.with(|r| r.borrow().get(&addr).and_then(|e| e.prim.clone()));
-        if let Some(p) = existing { if let Ok(p) = p.downcast::<P>() { return Some(p); } }
-        let p: Rc<P> = Rc::new(make()); // created outside the registry borrow: `make` may reach a scheduling point
+        let me = me();
+        let existing = REG.with(|r| r.borrow().get(&addr).and_then(|e| e.prim.clone().map(|p| (p, e.joined.iter().any(|t| *t == me)))));
+        if let Some((p, joined)) = existing { if let Ok(p) = p.downcast::<P>() {
+            if !joined { // first use by this thread: pass through the gate once (no registry borrow is held across it)
+                let gate = GATE.with(|g| g.borrow().clone()); if let Some(g) = gate { drop(g.lock().unwrap()); }
+                REG.with(|r| if let Some(e) = r.borrow_mut().get_mut(&addr) { e.joined.push(me); }); }
+            return Some(p); } }
+        let gate = GATE.with(|g| g.borrow().clone());
+        let guard = gate.as_ref().map(|g| g.lock().unwrap());
+        // another thread may have created it while this one waited at the gate
+        let raced = REG.with(|r| r.borrow().get(&addr).and_then(|e| e.prim.clone()));
+        if let Some(p) = raced { if let Ok(p) = p.downcast::<P>() { REG.with(|r| if let Some(e) = r.borrow_mut().get_mut(&addr) { e.joined.push(me); }); drop(guard); return Some(p); } }
+        let p: Rc<P> = Rc::new(make());
         REG.with(|r| { let mut r = r.borrow_mut();
-            let e = r.entry(addr).or_insert_with(|| Entry { size, snapshot: unsafe { ::std::slice::from_raw_parts(addr as *const u8, size) }.to_vec().into_boxed_slice(), prim: None });
-            e.prim = Some(p.clone() as Rc<dyn Any>); });
+            let e = r.entry(addr).or_insert_with(|| Entry { size, snapshot: unsafe { ::std::slice::from_raw_parts(addr as *const u8, size) }.to_vec().into_boxed_slice(), prim: None, joined: ::std::vec::Vec::new(), dropper: None });
+            if e.dropper.is_none() { e.dropper = dropper; }
+            e.prim = Some(p.clone() as Rc<dyn Any>); e.joined.clear(); e.joined.push(me); });
+        drop(guard);
         Some(p)
+    }
+    /// records the initial bytes of a static region that has no primitive of its own (reset with the others)
+    pub fn snapshot(addr: usize, size: usize) {
+        if !active() || !is_static(addr) { return; }
+        REG.with(|r| { r.borrow_mut().entry(addr).or_insert_with(|| Entry { size, snapshot: unsafe { ::std::slice::from_raw_parts(addr as *const u8, size) }.to_vec().into_boxed_slice(), prim: None, joined: ::std::vec::Vec::new(), dropper: None }); });
     }
     pub fn unregister(addr: usize) { let _ = REG.try_with(|r| { if let Ok(mut r) = r.try_borrow_mut() { r.remove(&addr); } }); }
 }
@@ -165,7 +198,7 @@ pub mod sync {
         pub struct MutexGuard<'a, T> { lock: &'a Mutex<T>, g: Option<LG>, p: Option<Rc<loom::sync::Mutex<()>>> }
         impl<T> Mutex<T> {
             pub const fn new(t: T) -> Self { Mutex { data: UnsafeCell::new(t) } }
-            fn p(&self) -> Option<Rc<loom::sync::Mutex<()>>> { crate::rt::prim(self as *const _ as usize, ::std::mem::size_of::<Self>(), || loom::sync::Mutex::new(())) }
+            fn p(&self) -> Option<Rc<loom::sync::Mutex<()>>> { crate::rt::prim_owning(self as *const _ as usize, ::std::mem::size_of::<Self>(), Some((self.data.get() as usize, crate::rt::drop_at::<T> as unsafe fn(usize))), || loom::sync::Mutex::new(())) }
             pub fn lock(&self) -> LockResult<MutexGuard<'_, T>> { let p = self.p(); let g = p.as_ref().map(|p| unsafe { ::std::mem::transmute::<loom::sync::MutexGuard<'_, ()>, LG>(p.lock().unwrap()) }); Ok(MutexGuard { lock: self, g, p }) }
             pub fn try_lock(&self) -> TryLockResult<MutexGuard<'_, T>> { let p = self.p(); let g = match p.as_ref() { Some(p) => match p.try_lock() { Ok(g) => Some(unsafe { ::std::mem::transmute::<loom::sync::MutexGuard<'_, ()>, LG>(g) }), Err(_) => return Err(TryLockError::WouldBlock) }, None => None }; Ok(MutexGuard { lock: self, g, p }) }
             pub fn is_poisoned(&self) -> bool { false }
@@ -211,7 +244,7 @@ pub mod sync {
         pub struct RwLockWriteGuard<'a, T> { lock: &'a RwLock<T>, _g: Option<WG>, _p: Option<Rc<loom::sync::RwLock<()>>> }
         impl<T> RwLock<T> {
             pub const fn new(t: T) -> Self { RwLock { data: UnsafeCell::new(t) } }
-            fn p(&self) -> Option<Rc<loom::sync::RwLock<()>>> { crate::rt::prim(self as *const _ as usize, ::std::mem::size_of::<Self>(), || loom::sync::RwLock::new(())) }
+            fn p(&self) -> Option<Rc<loom::sync::RwLock<()>>> { crate::rt::prim_owning(self as *const _ as usize, ::std::mem::size_of::<Self>(), Some((self.data.get() as usize, crate::rt::drop_at::<T> as unsafe fn(usize))), || loom::sync::RwLock::new(())) }
             pub fn read(&self) -> LockResult<RwLockReadGuard<'_, T>> { let p = self.p(); let g = p.as_ref().map(|p| unsafe { ::std::mem::transmute::<loom::sync::RwLockReadGuard<'_, ()>, RG>(p.read().unwrap()) }); Ok(RwLockReadGuard { lock: self, _g: g, _p: p }) }
             pub fn write(&self) -> LockResult<RwLockWriteGuard<'_, T>> { let p = self.p(); let g = p.as_ref().map(|p| unsafe { ::std::mem::transmute::<loom::sync::RwLockWriteGuard<'_, ()>, WG>(p.write().unwrap()) }); Ok(RwLockWriteGuard { lock: self, _g: g, _p: p }) }
             pub fn try_read(&self) -> TryLockResult<RwLockReadGuard<'_, T>> { let p = self.p(); let g = match p.as_ref() { Some(p) => match p.try_read() { Ok(g) => Some(unsafe { ::std::mem::transmute::<loom::sync::RwLockReadGuard<'_, ()>, RG>(g) }), Err(_) => return Err(TryLockError::WouldBlock) }, None => None }; Ok(RwLockReadGuard { lock: self, _g: g, _p: p }) }
@@ -240,7 +273,11 @@ pub mod sync {
         unsafe impl<T: Sync + Send, F: Send> Sync for LazyLock<T, F> {}
         impl<T, F: FnOnce() -> T> LazyLock<T, F> {
             pub const fn new(f: F) -> Self { LazyLock { cell: super::once_lock::OnceLock::new(), init: Cell::new(Some(f)) } }
-            pub fn force(this: &Self) -> &T { this.cell.get_or_init(|| (this.init.take().expect("LazyLock initialiser already taken"))()) }
+            pub fn force(this: &Self) -> &T {
+                // the initialiser is part of the static's initial state: snapshot the whole object before it is taken
+                crate::rt::snapshot(this as *const Self as usize, ::std::mem::size_of::<Self>());
+                this.cell.get_or_init(|| (this.init.take().expect("LazyLock initialiser already taken"))())
+            }
         }
         impl<T, F: FnOnce() -> T> Deref for LazyLock<T, F> { type Target = T; fn deref(&self) -> &T { LazyLock::force(self) } }
     }
@@ -255,7 +292,7 @@ pub mod sync {
         impl<T> ::std::panic::UnwindSafe for OnceLock<T> {} impl<T> ::std::panic::RefUnwindSafe for OnceLock<T> {}
         impl<T> OnceLock<T> {
             pub const fn new() -> OnceLock<T> { OnceLock { v: UnsafeCell::new(None) } }
-            fn p(&self) -> Option<::std::rc::Rc<loom::sync::Mutex<()>>> { crate::rt::prim(self as *const _ as usize, ::std::mem::size_of::<Self>(), || loom::sync::Mutex::new(())) }
+            fn p(&self) -> Option<::std::rc::Rc<loom::sync::Mutex<()>>> { crate::rt::prim_owning(self as *const _ as usize, ::std::mem::size_of::<Self>(), Some((self.v.get() as usize, crate::rt::drop_at::<Option<T>> as unsafe fn(usize))), || loom::sync::Mutex::new(())) }
             pub fn get(&self) -> Option<&T> { let p = self.p(); let _g = p.as_ref().map(|p| p.lock().unwrap()); unsafe { (*self.v.get()).as_ref() } }
             pub fn get_mut(&mut self) -> Option<&mut T> { self.v.get_mut().as_mut() }
             pub fn set(&self, value: T) -> Result<(), T> { let p = self.p(); let _g = p.as_ref().map(|p| p.lock().unwrap()); let slot = unsafe { &mut *self.v.get() }; if slot.is_some() { Err(value) } else { *slot = Some(value); Ok(()) } }
